@@ -47,6 +47,11 @@ Proof. exact (cat_rejects x l dim). Qed.
 Theorem C18_pad_ttm_rejects (x : ttm R) k v hd_ pds : (length x <? length pds)%nat = true ->
   apply_op OPad [VM x; VS k v] (hd_ :: pds) = VErr EArgs.
 Proof. exact (pad_ttm_rejects x k v hd_ pds). Qed.
+(* the TT layer: an input whose trailing dimensions are not size_in (too few dimensions, a singleton or any other size where a mode of size_in is expected) is refused *)
+Theorem C18_forward_rejects (W : ttm R) (bias X : dense R) ia :
+  (length W <=? length (dshape X))%nat && eqb_ln (shapeN W) (skipn (length (dshape X) - length W) (dshape X)) = false ->
+  apply_op OForward [VM W; VD bias; VD X] ia = VErr EShape.
+Proof. exact (forward_rejects W bias X ia). Qed.
 Theorem C18_transpose_tt_rejects (x : tt R) ia : apply_op OTr [VT x] ia = VErr EArgs.
 Proof. exact (transpose_tt_rejects x ia). Qed.
 Theorem C18_mul_tensor_rejects (x : tt R) (t : dense R) ia : dshape t <> [] ->
@@ -85,6 +90,7 @@ Print Assumptions C18_bilinear_rejects.
 Print Assumptions C18_pad_rejects.
 Print Assumptions C18_cat_rejects.
 Print Assumptions C18_pad_ttm_rejects.
+Print Assumptions C18_forward_rejects.
 Print Assumptions C18_transpose_tt_rejects.
 Print Assumptions C18_mul_tensor_rejects.
 Print Assumptions C18_dot_ttm_rejects.
